@@ -4,6 +4,7 @@ pub mod c03;
 pub mod c05;
 pub mod c06;
 pub mod c09;
+pub mod c10;
 pub mod c12;
 pub mod c14;
 pub mod c15;
@@ -22,6 +23,7 @@ pub fn run_property(ctx: &mut Ctx) -> bool {
         "C05" => c05::run(ctx),
         "C06" => c06::run(ctx),
         "C09" => c09::run(ctx),
+        "C10" => c10::run(ctx),
         "C12" => c12::run(ctx),
         "C14" => c14::run(ctx),
         "C15" => c15::run(ctx),
@@ -72,6 +74,7 @@ pub fn replay(body: &Value) -> i32 {
         "crc" => replay_part(&c15::CrcPart, body),
         "udp" => replay_part(&c16::UdpPart, body),
         "unack" => replay_part(&c18::C18Part, body),
+        "cancel" => replay_part(&c10::C10Part, body),
         "roundtrip" => replay_part(&c05::RtPart, body),
         "checksum" => replay_part(&c14::CkPart, body),
         "confinement" => replay_part(&c12::FsPart, body),
